@@ -62,7 +62,7 @@ Section Statements.
 
   (** With every modelled panic source behind its guard (short-calldata slice, sdk.NewCoin,
       NewIntFromBigInt, collections string keys, the 256-bit overflow of the bank supply under
-      MintCoins, the gas meter's out-of-gas panic) no input makes
+      MintCoins, the slice-to-array address conversion, the gas meter's out-of-gas panic) no input makes
       the call panic.  PARTIAL: panics inside the keeper-level bodies are outside the model. *)
   Theorem C08_no_panic_partial : forall F p k value gas inp st,
     panic_ok F = true -> input_wf inp = true ->
@@ -167,6 +167,15 @@ Theorem C08_no_panic_refuted_before_fix_supply_overflow :
              PFunToken KTop 0 3000000 inp 0) = Panic.
 Proof. exact no_panic_refuted_supply_overflow. Qed.
 Print Assumptions C08_no_panic_refuted_before_fix_supply_overflow.
+
+(** A partial address conversion (eth.NibiruAddrToEthAddr as gethcommon.Address(addr)) panics on a valid
+    bech32 address string with fewer than 20 payload bytes. *)
+Theorem C08_no_panic_refuted_with_partial_address_conversion :
+  exists k inp, input_wf inp = true /\
+    r_out (evm_call Z sample_body sample_after_mint sample_transfer (with_addr_conv reference_facts false)
+             PFunToken k 0 1000000 inp 0) = Panic.
+Proof. exact no_panic_refuted_partial_addr_conversion. Qed.
+Print Assumptions C08_no_panic_refuted_with_partial_address_conversion.
 
 (** The boolean checkers evaluated on implementation traces are sound for [P] / [P_nested]. *)
 Theorem C08_checker_sound : forall k value gas m cls left (se ce : bool),
